@@ -1,5 +1,6 @@
 import ErbiumModel.Util
 import ErbiumModel.Model.DhcpServer
+import ErbiumModel.Spec.PolicyDoc
 import ErbiumModel.Judge.C12
 import ErbiumModel.Judge.Pool
 /-! Driver glue for the `dhcp` suite: `dhcp::handle_pkt` on a configuration loaded by the real
@@ -190,6 +191,20 @@ def stepD (cfg : Cfg) (acc : DAcc) (op : DOp) (res : DRes) (rowsAfter : Store) :
           -- C02 oracle: the address told to the client lies in the set the configuration assigns to it
           -- (innermost matching policy's set, else the default pools; `C02_policy_sets_its_addresses`)
           let acc := if pool.contains x then acc else { acc with spec := acc.spec ++ ["unsat:C02.yiaddr_in_allowed:outside-assigned-set"] }
+          -- C11 oracle: the options of the reply against the manual's chain semantics (`Spec/PolicyDoc.lean`),
+          -- evaluated on the implementation's reply; message type, server id and lease time belong to the reply builder
+          let acc :=
+            let bad := (List.range 255).filterMap fun k =>
+              if k == 53 || k == 54 || k == 51 || k == 0 then none else
+              let doc := PolicyDoc.docSent cfg req k
+              let got := lookupOpt m.options k
+              if doc == got then none else
+              some (if !(paramList req).contains k then "sent-but-not-requested"
+                    else match doc, got with
+                      | none, some _ => "sent-but-unset-or-never-set"
+                      | some _, none => "documented-value-missing"
+                      | _, _ => "wrong-value")
+            if bad.isEmpty then acc else { acc with spec := acc.spec ++ (bad.eraseDups.map fun c => s!"unsat:C11.options_as_documented:{c}") }
           -- C09 oracle: a client naming (ciaddr, else option 50) an address it holds unexpired, inside the set assigned
           -- to it, is told that address and no other
           let named := if isReq && pkt.ciaddr != 0 then some pkt.ciaddr else optIp pkt.options 50
